@@ -83,8 +83,27 @@ func nativeVar(v *Var, f *Fact, n int64) nval {
 			return nBool(f.In.B)
 		}
 	}
+	inner := func(in *Inner, fld string) nval {
+		switch fld {
+		case "X":
+			return nInt(in.X)
+		case "Y":
+			return nFloat(in.Y)
+		case "S":
+			return nStr(in.S)
+		case "B":
+			return nBool(in.B)
+		}
+		return none
+	}
+	if a, ok := f.Any.(*Inner); ok && a != nil && strings.HasPrefix(t, "F.Any.") {
+		return inner(a, strings.TrimPrefix(t, "F.Any."))
+	}
 	var idx int
 	var key string
+	if n, err := fmt.Sscanf(t, "F.Items[%d].%s", &idx, &key); err == nil && n == 2 && idx >= 0 && idx < len(f.Items) {
+		return inner(f.Items[idx], key)
+	}
 	if _, err := fmt.Sscanf(t, "F.Arr[%d]", &idx); err == nil && idx >= 0 && idx < len(f.Arr) {
 		return nInt(f.Arr[idx])
 	}
